@@ -1,4 +1,5 @@
 import BytomModel.Model.Asm
+import BytomModel.Model.StdProgs
 import BytomModel.Drv.Util
 /- driver mode c09 (one answer line per op line; hex "-" = empty):
    parse <prog>            ok <n> <op>/<len>/<data> …        | err <class>
@@ -10,10 +11,11 @@ import BytomModel.Drv.Util
    rec <prog>              the recognisers and extractors
    build <kind> <arg>      builder output
    buildn <kind> <len> <b> builder on len × b, digested, + recognisers
+   multisig <m> <keys> / multisigh <m> <height> <keys> / conv pkh|sh <prog>   (Model/StdProgs)
    exh <prefix>            digest over prefix ++ every 2-byte suffix of (parse | dis)
 -/
 namespace BytomModel.Drv.C09
-open BytomModel.Drv BytomModel.Asm
+open BytomModel.Drv BytomModel.Asm BytomModel.StdProgs
 
 def perr : PErr → String
   | .long => "long" | .short => "short" | .overflow => "overflow" | .panic => "panic" | .diverge => "diverge"
@@ -66,6 +68,8 @@ def build (kind : String) (arg : Bytes) : Option Bytes :=
   | "register" => some (registerProgram arg)
   | "call" => some (callContractProgram arg)
   | "coinbase" => some defaultCoinbaseProgram
+  | "p2pkhsig" => some (p2pkhSigProgram arg)
+  | "p2sh" => some (p2shProgram arg)
   | _ => none
 
 def digest (bs : Bytes) : String :=
@@ -110,6 +114,14 @@ def step (_ : Unit) (line : String) : Unit × String :=
             | .ok d => "ok:" ++ digest d | .error e => "err:" ++ xerr e)
         | none => "bad-op")
       | _, _ => "bad-op"
+    | ["multisig", m, h] => match m.toInt?, parseHex h with
+      | some mi, some ks => xres (p2spMultiSigProgram (keysOf ks) mi)
+      | _, _ => "bad-op"
+    | ["multisigh", m, ht, h] => match m.toInt?, ht.toNat?, parseHex h with
+      | some mi, some hv, some ks => xres (p2spMultiSigProgramWithHeight (keysOf ks) mi hv)
+      | _, _, _ => "bad-op"
+    | ["conv", "pkh", h] => match parseHex h with | some p => xres (convertP2PKHSigProgram p) | none => "bad-op"
+    | ["conv", "sh", h] => match parseHex h with | some p => xres (convertP2SHProgram p) | none => "bad-op"
     | ["exh", h] => match parseHex h with | some p => exh p | none => "bad-op"
     | _ => "bad-op"
   ((), out)
